@@ -336,10 +336,11 @@ def h_inverse():
         W.install_instance_hooks()
         log_adds(W)
         case = ctx.choice(4, "case")      # 0 no inverse declared, 1 field on the target, 2 field on the target's role taker, 3 nowhere
+        inferred_edge = ctx.choice(2, "the-edge-itself-was-inferred?") == 0
         ttyp, rtyp = W.type_("T"), W.type_("RT")
         rt_inst = W.instance("target-role-taker", rtyp)
         tgt = W.instance("t", ttyp, taker=rt_inst)
-        r = W.relation("Plain" if case == 0 else "Mid", tgt=tgt)
+        r = W.relation("Plain" if case == 0 else "Mid", tgt=tgt, inferred=inferred_edge)
         inv_field, rt_field = W.field("Inv", "inv_on_target"), W.field("Inv", "inv_on_role_taker")
         asked = []
 
